@@ -11,8 +11,12 @@
 //!       the real `rten::ops::{add,sub,mul}` (`binary_op`: fast / general dispatch) on i32 *views* with
 //!       arbitrary strides (permuted, stepped, stride 0, overlapping) over storage `a[i] = i+1`, `b[i] = 100(i+1)`.
 //!   `uop a=<base>@<size:stride,…>` → `shape=<shape> data=<ints>`   (`Neg` on such a view: `unary_op`)
-//!   `ti in=<base>@<dims> perms=<p;p;…>` (`r` = reverse) → `shape=… data=…` | `err` | `panic`
-//!       nested `TransformInputs(…(Identity))` wrappers: the transform list applied to a view.
+//!   `ti ins=<view>[|<view>] specs=<idx>:<perm>;…` (`r` = reverse) → `shape=… data=…` | `err` | `panic`
+//!       nested `TransformInputs` wrappers around Identity (one input) or Sub (two inputs): transform lists over
+//!       several inputs, indices past the end (MissingInputs), invalid permutations (panic).
+//!   `tip ips=<list> idx=<list>` → `ips=<list>`   `TransformInputs::in_place_inputs` of nested wrappers.
+//!   `cp a=<base>@<dims>` → `shape=… data=…`   `TensorView::to_tensor()` (copy_into_slice / blocked transpose
+//!       copy) of a rank 2–4 view whose inner sizes cross the tile / block boundaries: logical row-major order.
 //!   `red a=<base>@<dims> k=<n>` → `shape=… data=…`   ReduceSum (keepdims) over the innermost `k` axes of an
 //!       i32 view with arbitrary strides (`reduce`: contiguous-chunks fast path vs lanes / packed slices).
 //!   `cov <names>` → `not-exercised=<names>`: registry operators (translate/registry_ops.py) without a case.
@@ -503,6 +507,41 @@ fn uop_case(cx: &mut Ctx, rng: &mut Rng) {
     cx.out.case(&req, &ans, None, true);
 }
 
+fn cp_case(cx: &mut Ctx, rng: &mut Rng) {
+    let edge = [1usize, 3, 4, 5, 15, 16, 17, 63, 64, 65, 70];
+    let mut sh = vec![*rng.pick(&edge), *rng.pick(&edge)];
+    if numel(&sh) > 2500 {
+        sh[0] = 1 + rng.usize_below(6);
+    }
+    if rng.chance(1, 3) {
+        sh.insert(0, 1 + rng.usize_below(2));
+    }
+    let (base, dims) = rand_view(rng, &sh);
+    if storage_len(base, &dims) > 40_000 {
+        return;
+    }
+    let req = format!("cp a={}", view_str(base, &dims));
+    let stor: Vec<i32> = (0..storage_len(base, &dims) as i32 + 2).map(|i| i + 1).collect();
+    let r = hcommon::catch(|| {
+        let v = rten_tensor::TensorView::from_slice_with_strides(&sh[..], &stor[base..], &dims.iter().map(|d| d.1).collect::<Vec<_>>()[..])
+            .map_err(|e| format!("{e:?}"))?;
+        let t = v.to_tensor();
+        let c = v.to_contiguous();
+        let same = t.iter().eq(v.iter()) && c.iter().eq(v.iter()) && t.is_contiguous();
+        Ok::<_, String>((t.shape().to_vec(), t.data().unwrap().to_vec(), same))
+    });
+    let (ans, fail) = match r {
+        Ok(Ok((shape, data, same))) => (
+            format!("shape={} data={}", shp(&shape), ints(&data)),
+            (!same).then_some("to_tensor / to_contiguous do not hold the view's elements in logical order"),
+        ),
+        Ok(Err(_)) => ("err".to_string(), None),
+        Err(m) => (format!("panic {m}"), Some("copy panicked")),
+    };
+    cx.out.bucket("cp");
+    cx.out.case(&req, &ans, fail, true);
+}
+
 fn red_case(cx: &mut Ctx, rng: &mut Rng) {
     let sh = loop {
         let s = rshape(rng, 4, 1);
@@ -548,47 +587,88 @@ fn red_case(cx: &mut Ctx, rng: &mut Rng) {
     cx.out.case(&req, &ans, fail, true);
 }
 
+/// Shape that becomes `target` after applying `perms` in order (`None` = reverse).
+fn unpermute(target: &[usize], perms: &[Option<Vec<usize>>]) -> Vec<usize> {
+    let mut cur = target.to_vec();
+    for p in perms.iter().rev() {
+        match p {
+            None => cur.reverse(),
+            Some(p) => {
+                let mut prev = vec![1usize; cur.len()];
+                if p.len() == cur.len() && p.iter().all(|&i| i < cur.len()) {
+                    for (i, &pi) in p.iter().enumerate() {
+                        prev[pi] = cur[i];
+                    }
+                    cur = prev;
+                }
+            }
+        }
+    }
+    cur
+}
+
 fn ti_case(cx: &mut Ctx, rng: &mut Rng) {
-    let sh = loop {
-        let s = rshape(rng, 4, 0);
-        if numel(&s) <= 48 {
+    let fin = loop {
+        let s = rshape(rng, 3, 0);
+        if numel(&s) <= 36 {
             break s;
         }
     };
-    let (base, dims) = rand_view(rng, &sh);
+    let n_in = 1 + rng.usize_below(2);
     let k = 1 + rng.usize_below(3);
-    let mut perms: Vec<Option<Vec<usize>>> = vec![];
+    let mut specs: Vec<(usize, Option<Vec<usize>>)> = vec![];
     for _ in 0..k {
+        let idx = if rng.chance(1, 12) { n_in + rng.usize_below(2) } else { rng.usize_below(n_in) };
         if rng.chance(1, 4) {
-            perms.push(None);
+            specs.push((idx, None));
         } else {
-            let mut p: Vec<usize> = (0..sh.len()).collect();
+            let mut p: Vec<usize> = (0..fin.len()).collect();
             rng.shuffle(&mut p);
             if rng.chance(1, 25) && !p.is_empty() {
                 p[0] = p[p.len() - 1]; // invalid on purpose
             }
-            perms.push(Some(p));
+            specs.push((idx, Some(p)));
         }
     }
-    let pstr: Vec<String> = perms
+    // stored shapes chosen so that (mostly) every input ends up with shape `fin`
+    let mut views: Vec<(Vec<usize>, usize, Vec<(usize, usize)>)> = vec![];
+    for i in 0..n_in {
+        let mine: Vec<Option<Vec<usize>>> = specs.iter().filter(|s| s.0 == i).map(|s| s.1.clone()).collect();
+        let stored = if rng.chance(1, 10) { fin.clone() } else { unpermute(&fin, &mine) };
+        let (base, dims) = rand_view(rng, &stored);
+        views.push((stored, base, dims));
+    }
+    let pstr: Vec<String> = specs
         .iter()
-        .map(|p| match p {
-            None => "r".to_string(),
-            Some(p) => if p.is_empty() { "e".to_string() } else { hcommon::join(p.iter(), ",") },
+        .map(|(i, p)| match p {
+            None => format!("{i}:r"),
+            Some(p) => format!("{i}:{}", if p.is_empty() { "e".to_string() } else { hcommon::join(p.iter(), ",") }),
         })
         .collect();
-    let req = format!("ti in={} perms={}", view_str(base, &dims), pstr.join(";"));
-    let stor: Vec<i32> = (0..storage_len(base, &dims) as i32 + 2).map(|i| i + 1).collect();
-    let case = Case { name: "id", onnx: "Identity", domain: "", attrs: vec![], inputs: vec![Some(ti(rng, &[]))], n_out: 1, data_inputs: vec![] };
-    let mut op = cx.cache.get(&case).expect("Identity loads");
+    let req = format!(
+        "ti ins={} specs={}",
+        views.iter().map(|(_, b, d)| view_str(*b, d)).collect::<Vec<_>>().join("|"),
+        pstr.join(";")
+    );
+    let stors: Vec<Vec<i32>> = views
+        .iter()
+        .enumerate()
+        .map(|(k, (_, b, d))| (0..storage_len(*b, d) as i32 + 2).map(|i| (i + 1) * 100i32.pow(k as u32)).collect())
+        .collect();
+    let inner_name = if n_in == 1 { "Identity" } else { "Sub" };
+    let case = Case { name: "id", onnx: inner_name, domain: "", attrs: vec![], inputs: (0..n_in).map(|_| Some(ti(rng, &[]))).collect(), n_out: 1, data_inputs: vec![] };
+    let mut op = cx.cache.get(&case).expect("inner loads");
     // transforms are applied outermost wrapper first: wrap in reverse order
-    for p in perms.iter().rev() {
-        op = rten::verif::transform_inputs_permute(op, 0, p.clone());
+    for (i, p) in specs.iter().rev() {
+        op = rten::verif::transform_inputs_permute(op, *i, p.clone());
     }
     let r = hcommon::catch(|| {
-        let v = rten_tensor::TensorView::from_slice_with_strides(&sh[..], &stor[base..], &dims.iter().map(|d| d.1).collect::<Vec<_>>()[..])
-            .map_err(|e| format!("{e:?}"))?;
-        let ins = vec![Some(ValueView::from(v))];
+        let mut ins: Vec<Option<ValueView>> = vec![];
+        for (k, (sh, b, d)) in views.iter().enumerate() {
+            let v = rten_tensor::TensorView::from_slice_with_strides(&sh[..], &stors[k][*b..], &d.iter().map(|d| d.1).collect::<Vec<_>>()[..])
+                .map_err(|e| format!("{e:?}"))?;
+            ins.push(Some(ValueView::from(v)));
+        }
         let o = run_op(&*op, &ins, 1)?;
         Ok::<_, String>(canon(&o[0]))
     });
@@ -597,8 +677,26 @@ fn ti_case(cx: &mut Ctx, rng: &mut Rng) {
         Ok(Err(_)) => "err".to_string(),
         Err(_) => "panic".to_string(),
     };
-    cx.out.bucket(&format!("ti:{}", ans.split('=').next().unwrap_or("")));
+    cx.out.bucket(&format!("ti{n_in}:{}", ans.split('=').next().unwrap_or("")));
     cx.out.case(&req, &ans, None, ans.starts_with("shape"));
+}
+
+/// `TransformInputs::in_place_inputs` of nested wrappers.
+fn tip_case(cx: &mut Ctx, rng: &mut Rng) {
+    let (inner_name, n_in): (&'static str, usize) = *rng.pick(&[("Sub", 2), ("Add", 2), ("Less", 2), ("Identity", 1)]);
+    let case = Case { name: "tip", onnx: inner_name, domain: "", attrs: vec![], inputs: (0..n_in).map(|_| Some(tf(rng, &[]))).collect(), n_out: 1, data_inputs: vec![] };
+    let inner = cx.cache.get(&case).expect("inner loads");
+    let ips: Vec<usize> = inner.in_place_inputs().iter().map(|i| i as usize).collect();
+    let k = 1 + rng.usize_below(3);
+    let idx: Vec<usize> = (0..k).map(|_| *rng.pick(&[0usize, 1, 1, 2, 16, 17])).collect();
+    let mut op = inner.clone();
+    for i in idx.iter().rev() {
+        op = rten::verif::transform_inputs_permute(op, *i, None);
+    }
+    let got: Vec<usize> = op.in_place_inputs().iter().map(|i| i as usize).collect();
+    let req = format!("tip ips={} idx={}", shp(&ips), hcommon::join(idx.iter(), ","));
+    cx.out.bucket("tip");
+    cx.out.case(&req, &format!("ips={}", shp(&got)), None, !got.is_empty());
 }
 
 fn main() {
@@ -662,6 +760,10 @@ fn run(args: &Args) {
         uop_case(&mut cx, &mut rng);
         ti_case(&mut cx, &mut rng);
         red_case(&mut cx, &mut rng);
+        tip_case(&mut cx, &mut rng);
+    }
+    for _ in 0..n_glue / 30 {
+        cp_case(&mut cx, &mut rng);
     }
     // (b) every catalogue operator under layout changes
     let per_op = if args.thorough { 10_000 } else { 1_000 };
